@@ -34,7 +34,8 @@ FILES = ["qucumber/nn_states/neural_state.py", "qucumber/utils/gradients_utils.p
 REQUIRED_THEOREMS = ['C06_final_lr', 'C06_positional_call', 'C06_batch_grad', 'C06_batch_grad_prbm', 'C06_phase_gets_positive_phase_only', 'C06_slices', 'C06_lands_on_parameter',
                      'C06_lands_on_parameter_prbm', 'C06_sgd_step', 'C06_run_unfold',
                      'C06_chain', 'C06_chain_prbm', 'C06_chain_zero', 'C06_chain_run', 'C06_chain_step', 'C06_chain_law', 'C06_sgd_step_dm',
-                     'C06_chain_stationary', 'C06_history', 'C06_run_unfold_cplx', 'C06_run_unfold_dm', 'C06_scheduler_lr', 'C06_steplr', 'C06_fit_trace_length']
+                     'C06_chain_stationary', 'C06_history', 'C06_run_unfold_cplx', 'C06_run_unfold_dm', 'C06_scheduler_lr', 'C06_steplr', 'C06_fit_trace_length',
+                     'C06_slices_exact', 'C06_slices_tail_ignored', 'C06_fit_vector_length']   # extension round 2
 RULE = ("case = a real fit() run (state kind, n, h[, a], data with repeats and per-row bases [optionally over X/Y/Z + user-registered letters], pos/neg batch "
         "sizes equal or different, dividing N or not, k in 0..3, learning rate, 1-4 epochs, 1-3 consecutive fits on the same object with other lr/data, the "
         "caller's callbacks list / optimizer_args dict / scheduler_args dict being the SAME objects in every call and optionally in a prior fit of another "
@@ -270,6 +271,12 @@ def one_case(ctx, case):
                 out = orig_cbg(k, samples_batch, neg_batch, bases_batch)
         cur["calls"] = rec.calls
         cur["neg_after"] = neg_batch.numpy().copy()
+        try:   # extension round 2: the flat vectors fit hands to vector_to_grads (all_grads[i] for network i) against the parameter counts
+            vl = [(tuple(g.shape), str(g.dtype)) for g in out]
+            want_vl = [((sum(int(p_.numel()) for p_ in x.parameters()),), "torch.float64") for x in nets]
+        except Exception:  # noqa: BLE001
+            vl, want_vl = None, "unreadable"
+        log.setdefault("vec_lens", []).append((vl, want_vl))
         gc = cur.pop("gibbs_calls", [])
         if len(gc) == 1 and gc[0][1].shape == cur["neg"].shape and gc[0][2].shape == cur["neg"].shape:
             # the chain is ONE gibbs_steps call on a whole batch: observable through the wrapper
@@ -480,6 +487,13 @@ def one_case(ctx, case):
         torch.optim.SGD.step = sgd_step_orig
         st.compute_batch_gradients = orig_cbg
         st.rbm_am.gibbs_steps = orig_gibbs
+
+    vls = log.get("vec_lens", [])
+    bad_vl = [(i, a_, b_) for i, (a_, b_) in enumerate(vls) if a_ != b_]
+    ctx.count(f"fit: flat gradient vectors observed with exactly the network's parameter count: {len(vls) - len(bad_vl)} of {len(vls)} batches")
+    ctx.oracle("every vector fit hands to vector_to_grads is a 1-D double tensor with EXACTLY the total parameter count of its network "
+               "(no value is dropped by the silent truncation, none is missing)", not bad_vl, case,
+               detail={"first": [str(x) for x in bad_vl[:1]]}, sig=f"{kind}/vector-length", theorem="C06_fit_vector_length, C06_slices_exact")
 
     if log["unobserved"]:
         # fit no longer goes through the public compute_batch_gradients once per optimizer step: the per-batch model cannot be tied to the code
@@ -1046,8 +1060,85 @@ def gen_cases(ctx, thorough):
     return out
 
 
+# ------------------------------------------------------------------ extension round 2: direct vector_to_grads calls (refusals, truncation) vs ArgConv.vectorToGradsE
+VTG_VARIANTS = ("exact", "longer", "much_longer", "shorter_by_1", "shorter_mid", "empty", "float32", "int64", "list", "ndarray", "none", "no_params")
+
+
+def vtg_case(ctx, case):
+    import random
+
+    from qucumber.rbm import BinaryRBM, PurificationRBM
+    from qucumber.utils.gradients_utils import vector_to_grads
+
+    ctx.current_case = case
+    rng = random.Random(case["seed"])
+    n, h, a, variant, net = case["n"], case["h"], case["a"], case["variant"], case["net"]
+    rbm = BinaryRBM(n, h, gpu=False) if net == "rbm" else PurificationRBM(n, h, a, gpu=False)
+    params = [] if variant == "no_params" else list(rbm.parameters())
+    sizes = [int(p_.numel()) for p_ in params]
+    total = sum(sizes)
+    length = {"exact": total, "longer": total + 1, "much_longer": 2 * total + 3, "shorter_by_1": total - 1,
+              "shorter_mid": sizes[0] + max(0, (sizes[1] - 1)) if len(sizes) > 1 else 0, "empty": 0, "no_params": 4}.get(variant, total)
+    vals = np.array([rng.randrange(-8, 9) / 4.0 for _ in range(length)], dtype=np.float64)
+    if variant == "int64":
+        vals = np.rint(vals)
+    dt = {"float32": "float32", "int64": "int64"}.get(variant, "float64")
+    if variant == "list":
+        vec, mvec = vals.tolist(), None
+    elif variant == "ndarray":
+        vec, mvec = vals.copy(), None
+    elif variant == "none":
+        vec, mvec = None, None
+    else:
+        vec, mvec = torch.tensor(vals, dtype=getattr(torch, dt)), {"dt": dt, "vals": bits(vals)}
+    ctx.case({k: case[k] for k in ("n", "h", "a", "variant", "net", "seed")}, nontrivial=True, sample={"kind": "vtg", "variant": variant, "sizes": sizes, "len": length})
+    ctx.count("kind=vtg"); ctx.count(f"vtg: vector {variant}"); ctx.count(f"vtg: net={net}")
+    try:
+        vector_to_grads(vec, iter(params)); err = None
+    except Exception as e:  # noqa: BLE001
+        err = type(e).__name__
+    assigned = []
+    for p_ in params:
+        if p_.grad is None:
+            break
+        assigned.append(bits(p_.grad.detach().to(torch.double).reshape(-1)))
+    later = any(p_.grad is not None for p_ in params[len(assigned):])
+    if ctx.driver is not None:
+        m = ctx.driver.call("c06.vector_to_grads", vec=mvec, sizes=sizes)
+        if variant in ("longer", "much_longer", "no_params") and err is not None:
+            # a length check in front of the loop would be a legitimate tightening (C06 does not ask for the truncation): counter, no verdict
+            ctx.count("vtg: a vector LONGER than the parameters is refused by the implementation (the model accepts and truncates)")
+            return
+        ctx.point("vector_to_grads: call refused or not (non-tensor vector, vector that runs out, vector of another element type; a LONGER vector is "
+                  "accepted)", "aux", err is None, "ok" in m, case, exact=True, sig=f"vtg/refused/{variant}", theorem="C06_slices_exact")
+        ctx.point("vector_to_grads: the .grad tensors assigned when the call returns / raises (a prefix of the parameters, each its slice)", "aux",
+                  assigned, m["assigned"], case, exact=True, sig=f"vtg/assigned/{variant}", theorem="C06_slices_exact, C06_slices_tail_ignored")
+    ctx.count("vtg: " + ("accepted" if err is None else "refused") + f" ({variant})")
+    if variant in ("exact", "longer", "much_longer") and err is None:
+        # each value lands on the parameter it belongs to: parameter i holds vec[offset_i : offset_i + numel_i] reshaped, nothing after a gap
+        off, ok = 0, not later and len(assigned) == len(params)
+        for p_, k_ in zip(params, sizes):
+            ok = ok and p_.grad is not None and tuple(p_.grad.shape) == tuple(p_.shape) and np.array_equal(p_.grad.numpy().ravel(), vals[off:off + k_])
+            off += k_
+        ctx.oracle("vector_to_grads gives every parameter exactly its slice of the vector, in parameters() order" +
+                   (" (entries beyond the parameter count are ignored)" if variant != "exact" else ""), bool(ok), case, sig=f"vtg/slices/{variant}",
+                   theorem="C06_slices_exact, C06_lands_on_parameter" + (", C06_slices_tail_ignored" if variant != "exact" else ""))
+
+
+def gen_vtg_cases(rng, thorough):
+    for i, variant in enumerate(VTG_VARIANTS):
+        for net in (("rbm", "prbm") if thorough or i % 2 == 0 else ("rbm",)):
+            yield {"kind": "vtg", "n": rng.randrange(1, 4), "h": rng.randrange(1, 4), "a": rng.randrange(1, 3), "variant": variant, "net": net,
+                   "seed": rng.randrange(1 << 30)}
+        if not thorough and i % 2 == 1:
+            yield {"kind": "vtg", "n": rng.randrange(1, 4), "h": rng.randrange(1, 4), "a": rng.randrange(1, 3), "variant": variant, "net": "prbm",
+                   "seed": rng.randrange(1 << 30)}
+
+
 def run(ctx):
     ctx.rule = RULE
+    for case in gen_vtg_cases(ctx.rng, ctx.tier == "thorough"):
+        vtg_case(ctx, case)
     for case in gen_cases(ctx, ctx.tier == "thorough"):
         one_case(ctx, case)
 
@@ -1055,6 +1146,8 @@ def run(ctx):
 def search(ctx):
     drv, ctx.driver = ctx.driver, None
     try:
+        for case in gen_vtg_cases(ctx.rng, True):
+            vtg_case(ctx, case)
         for case in gen_cases(ctx, True):
             one_case(ctx, case)
     finally:
@@ -1062,5 +1155,7 @@ def search(ctx):
 
 
 def replay(ctx, case):
+    if case.get("kind") == "vtg":
+        return vtg_case(ctx, case)
     case = dict(case); case.pop("batch_index", None); case.pop("fit_call", None)
     one_case(ctx, case)
